@@ -89,6 +89,20 @@ Print Assumptions C05_product_laplace_op_sequence_q1_is_psd.
 Print Assumptions C05_lpq_p1_q1_is_psd.
 Print Assumptions C05_sum_power_q1_is_psd.
 Print Assumptions C05_gaussian_l2_q2_is_psd.
+(* exponent 2 of the other families reduces to the Gaussian case *)
+Require Import XV.Real.PsdCompose.
+Theorem C05_product_q2_is_psd : forall t L xs cs d, 0 < L -> wf_tmat t d -> Forall (fun x => length x = d) xs -> 0 <= qf (laplace_product t L 2) xs cs.
+Proof. exact laplace_product_q2_psd. Qed.
+Theorem C05_lpq_p2_q2_is_psd : forall t L xs cs d, 0 < L -> wf_tmat t d -> Forall (fun x => length x = d) xs -> 0 <= qf (laplace_lpq t L 2 2) xs cs.
+Proof. exact laplace_lpq_p2_q2_psd. Qed.
+Theorem C05_sum_power_q2_is_psd : forall t L c power xs cs d, 0 < L -> 0 <= c <= 1 -> wf_tmat t d -> Forall (fun x => length x = d) xs ->
+  0 <= qf (sum_power t L 2 c power) xs cs.
+Proof. exact sum_power_op_q2_psd. Qed.
+(* the two formulations of positive semi-definiteness agree: quadratic form over point lists = quadratic form of the Gram matrix *)
+Theorem C05_gram_matrix_quadratic_form : forall k xs cs, Ridge.qformR (gram k xs) cs = qf k xs cs.
+Proof. exact qformR_gram. Qed.
+Print Assumptions C05_sum_power_q2_is_psd.
+Print Assumptions C05_gram_matrix_quadratic_form.
 (* closure of feature-map representations under sums, non-negative scaling, products and powers (Schur product via tensor features) *)
 Theorem C05_representable_kernels_are_psd : forall k P, has_rep k P -> forall cs, 0 <= qf k P cs.
 Proof. exact has_rep_qf_nonneg. Qed.
